@@ -797,6 +797,33 @@ func runClusterScenario(bin, scratch string, seed int64, sc clScenario) (rep clR
 			}
 		}
 	}
+	// C14 / C03 in cluster mode: a one-shot client writes a pipeline and closes its sending side at once (printf ... | nc); a standalone server answers every
+	// command before it looks at the end of the stream, and so must a cluster node, whose replies wait for a commit (seeded change
+	// C14-cluster-halfclose-drops-last-reply: the end of the stream seen while the last command waited for its commit dropped that reply)
+	for _, n := range c.nodes {
+		hc, err := net.DialTimeout("tcp", fmt.Sprintf("127.0.0.1:%d", n.kvPort), 2*time.Second)
+		if err != nil {
+			continue
+		}
+		key := fmt.Sprintf("hc-probe-%d", n.id)
+		var pipe []byte
+		for _, cmd := range [][]string{{"SET", key, "v"}, {"APPEND", key, "w"}, {"STRLEN", key}} {
+			pipe = append(pipe, encodeCmd(cmd)...)
+		}
+		hc.SetDeadline(time.Now().Add(8 * time.Second))
+		hc.Write(pipe)
+		if tc, ok := hc.(*net.TCPConn); ok {
+			tc.CloseWrite()
+		}
+		got, _ := io.ReadAll(hc)
+		hc.Close()
+		if want := "+OK\r\n:2\r\n:2\r\n"; string(got) != want {
+			cur, _ := c.once(n, 3*time.Second, "GET", key)
+			problem("bad-reply", fmt.Sprintf("node %d: a client wrote SET %s v | APPEND %s w | STRLEN %s and closed its sending side at once; it read %q until the end of the stream, a standalone server answers %q "+
+				"(GET %s from another connection afterwards: %q)", n.id, key, key, key, got, want, key, cur))
+			break
+		}
+	}
 	opTimeout := 3 * time.Second
 	if sc.OpTimeout > 0 {
 		opTimeout = time.Duration(sc.OpTimeout) * time.Millisecond
